@@ -28,6 +28,9 @@ type funcRecord struct {
 	Sig  string   `json:"sig"`
 	FP   []string `json:"fp"`
 	Ord  int      `json:"ord"` // position among the declarations of its package (files in name order)
+	// Callers: the functions of the module that call it directly ("pkgrel.Name"): when a listed function no longer
+	// exists (inlined into its callers and deleted), the rules anchored in it look at the one caller that is left
+	Callers []string `json:"callers,omitempty"`
 }
 
 type structRecord struct {
@@ -293,16 +296,68 @@ func functionInventory(pkgs map[string]*packages.Package) []funcRecord {
 		rels = append(rels, rel)
 	}
 	sort.Strings(rels)
+	// direct callers, by callee object
+	callers := map[types.Object]map[string]bool{}
+	for _, rel := range rels {
+		p := pkgs[rel]
+		for _, fd := range declsInOrder(p) {
+			if fd.Body == nil {
+				continue
+			}
+			from := rel + "." + declNameRaw(fd)
+			ast.Inspect(fd.Body, func(n ast.Node) bool {
+				if call, ok := n.(*ast.CallExpr); ok {
+					if f := calleeFunc(p.TypesInfo, call); f != nil && f.Pkg() != nil && strings.HasPrefix(f.Pkg().Path(), modPath) {
+						if callers[f] == nil {
+							callers[f] = map[string]bool{}
+						}
+						callers[f][from] = true
+					}
+				}
+				return true
+			})
+		}
+	}
 	for _, rel := range rels {
 		p := pkgs[rel]
 		for ord, fd := range declsInOrder(p) {
 			if fd.Name.Name == "init" || fd.Name.Name == "_" {
 				continue
 			}
-			out = append(out, funcRecord{Rel: rel, Name: declNameRaw(fd), Sig: sigKey(p.TypesInfo, fd), FP: fingerprint(p.TypesInfo, fd), Ord: ord})
+			rec := funcRecord{Rel: rel, Name: declNameRaw(fd), Sig: sigKey(p.TypesInfo, fd), FP: fingerprint(p.TypesInfo, fd), Ord: ord}
+			if o := p.TypesInfo.Defs[fd.Name]; o != nil {
+				for c := range callers[o] {
+					if c != rel+"."+rec.Name {
+						rec.Callers = append(rec.Callers, c)
+					}
+				}
+				sort.Strings(rec.Callers)
+			}
+			out = append(out, rec)
 		}
 	}
 	return out
+}
+
+// formerCallers: listed function ("pkgrel.Name") -> its direct callers in the reference tree
+var formerCallers map[string][]string
+
+func loadFormerCallers() {
+	if formerCallers != nil {
+		return
+	}
+	formerCallers = map[string][]string{}
+	if tablesDir == "" {
+		return
+	}
+	if b, err := os.ReadFile(filepath.Join(tablesDir, "functions.json")); err == nil {
+		var inv inventoryFile
+		if json.Unmarshal(b, &inv) == nil {
+			for _, r := range inv.Functions {
+				formerCallers[r.Rel+"."+r.Name] = r.Callers
+			}
+		}
+	}
 }
 
 // declsInOrder: the function declarations of a package, files in name order, declarations in source order
